@@ -87,11 +87,8 @@ func WaitAvailableKeys(keys *Keys, cfg *inputrc.Config) error {
 		default:
 			// When convert-meta is on, any meta-prefixed bind should
 			// be stripped and replaced with an escape meta instead.
-			if keys.cfg != nil && keys.cfg.GetBool("convert-meta") {
-				keyBuf = keys.convertMeta(keyBuf)
-				if len(keyBuf) == 0 {
-					continue
-				}
+			if keyBuf = keys.convertMeta(keyBuf); len(keyBuf) == 0 {
+				continue
 			}
 
 			keys.mutex.RLock()
@@ -103,11 +100,16 @@ func WaitAvailableKeys(keys *Keys, cfg *inputrc.Config) error {
 	}
 }
 
-// convertMeta applies the convert-meta translation to the characters of a read.
+// convertMeta applies the convert-meta translation, when it is
+// enabled, to the characters of the keys read from the terminal.
 // A read can end in the middle of a character: the bytes of an incomplete one are
 // kept for the next read instead of being decoded on their own, and bytes that are
 // not part of a valid encoding are left as they are.
 func (k *Keys) convertMeta(read []byte) []byte {
+	if k.cfg == nil || !k.cfg.GetBool("convert-meta") {
+		return read
+	}
+
 	read = append(k.partial, read...)
 	k.partial = nil
 
@@ -256,18 +258,25 @@ func (k *Keys) ReadKey() (key rune, isAbort bool) {
 		key = k.macroKeys[0]
 		k.macroKeys = k.macroKeys[1:]
 
-	case len(k.buf) > 0:
-		// Keys that arrived together with the command's own
-		// keys (type-ahead, paste) are already in the stack.
-		var size int
-		key, size = utf8.DecodeRune(k.buf)
-		k.buf = k.buf[size:]
-
 	case k.waiting:
 		buf := <-k.keysOnce
 		key = []rune(string(buf))[0]
 	default:
-		buf, _ := k.readInputFiltered()
+		// The key is the first character of the keys that arrived together
+		// with the command's own keys (type-ahead, paste), or of the next read.
+		// A read can end in the middle of a character: wait for its other bytes.
+		buf := append(k.buf, k.partial...)
+		k.buf, k.partial = nil, nil
+
+		for !utf8.FullRune(buf) {
+			more, _ := k.readInputFiltered()
+			if len(more) == 0 {
+				break
+			}
+
+			buf = append(buf, more...)
+		}
+
 		if len(buf) == 0 {
 			// The input ended: abort the command.
 			return 0, true
@@ -276,7 +285,7 @@ func (k *Keys) ReadKey() (key rune, isAbort bool) {
 		// Use the first key, keep the others for later.
 		var size int
 		key, size = utf8.DecodeRune(buf)
-		k.buf = append(k.buf, buf[size:]...)
+		k.buf = buf[size:]
 	}
 
 	// Always mark those keys as matched, so that
